@@ -16,6 +16,8 @@ Item = TypeVar("Item", bound=Hold)
 class HoldList(NoteList[Item]):
     def last_offset(self) -> float:
         """Get Last Note Offset. This includes the tail"""
+        if len(self.df) == 0:
+            return None
         return max(self.offset + self.length)
 
     def first_last_offset(self) -> Tuple[float, float]:
